@@ -86,6 +86,22 @@ def _rel(a, b, k=1, rtol=1e-9):
     return abs(a - b) <= rtol * max(k, 1) * max(abs(a), abs(b))
 
 
+def _vec_close(a, b, rtol=1e-8):
+    """vectors agree up to rounding relative to their largest component (on a diverging run the small components carry the
+    cancellation error of the large ones: a component-wise floor of 1e-8 raised a false alarm at |x|_inf = 2.7e8)"""
+    a = np.asarray(a, dtype=np.float64).ravel()
+    b = np.asarray(b, dtype=np.float64).ravel()
+    if a.shape != b.shape:
+        return False
+    fin = np.isfinite(a) & np.isfinite(b)
+    if not np.array_equal(np.isnan(a), np.isnan(b)) or not np.array_equal(a[~fin & ~np.isnan(a)], b[~fin & ~np.isnan(b)]):
+        return False
+    if not fin.any():
+        return True
+    scale = 1.0 + float(max(np.abs(a[fin]).max(), np.abs(b[fin]).max()))
+    return bool(np.all(np.abs(a[fin] - b[fin]) <= rtol * a.size * scale))
+
+
 def _same(a, b, rtol=1e-13):
     return _rel(a, b, 1, rtol)
 
@@ -419,11 +435,11 @@ def check_case(ctx, model, case, origin="gen"):
             break
         st = states[i]
         mL, mx = b2f(st["L"]), common.b2fs(st["x"])
-        ok = _rel(r["L"], mL, 8, TOL) and common.allclose(r["x"], mx, None, 1e-8)
+        ok = _rel(r["L"], mL, 8, TOL) and _vec_close(r["x"], mx, 1e-8)
         if ok and kind in ("ls", "rls"):
             ok = st["tried"] == len(r["tests"])
         if ok and case["accel"] and kind != "rls":
-            ok = common.allclose(r["v"], common.b2fs(st["v"]), None, 1e-8) and common.close(r["t"], b2f(st["t"]), 4, TOL)
+            ok = _vec_close(r["v"], common.b2fs(st["v"]), 1e-8) and common.close(r["t"], b2f(st["t"]), 4, TOL)
         if ok and kind == "rls":
             ok = _rel(r["Tk"], b2f(st["Tk"]), 8, 1e-8)
         if not ok:
@@ -705,6 +721,88 @@ def check_stub_search(ctx, model):
     ctx.extra["exhaustive"] = f"line-search control flow: all accept/reject/NaN patterns for maxiter <= 4 and accept/reject for maxiter = 5, both classes, 2 parameter sets ({n} calls)"
 
 
+# --------------------------------------------------------------------------
+# block arrays: the same separable quadratic on a BlockArray variable and on its concatenation
+
+
+def _block_runs(case):
+    """L and x trajectories of the real solver on f(x) = 1/2 sum(q*x*x) + sum(b*x) with x a BlockArray of shapes
+    (n1,), (r, c) and with x the flat concatenation"""
+    import scico.numpy as snp
+    from scico import functional
+    from scico.optimize import PGM, AcceleratedPGM
+
+    n1, r, c = case["shapes"]
+    q = np.asarray(case["q"], dtype=np.float64)
+    b = np.asarray(case["b"], dtype=np.float64)
+    x0 = np.asarray(case["x0"], dtype=np.float64)
+
+    def split(a):
+        return snp.blockarray([snp.array(a[:n1]), snp.array(a[n1:].reshape(r, c))])
+
+    class Quad(functional.Functional):
+        has_eval = True
+        has_prox = False
+
+        def __init__(self, qq, bb):
+            self.qq, self.bb = qq, bb
+            super().__init__()
+
+        def __call__(self, x):
+            return 0.5 * snp.sum(self.qq * x * x) + snp.sum(self.bb * x)
+
+    out = []
+    for blocked in (True, False):
+        f = Quad(split(q), split(b)) if blocked else Quad(snp.array(q), snp.array(b))
+        cls = AcceleratedPGM if case["accel"] else PGM
+        s = cls(f=f, g=functional.ZeroFunctional(), L0=case["L0"], x0=split(x0) if blocked else snp.array(x0),
+                step_size=G.make_policy(case["policy"]), maxiter=case["steps"])
+        Ls, xs = [], []
+        try:
+            for _ in range(case["steps"]):
+                s.step()
+                Ls.append(float(np.asarray(s.L)))
+                xs.append(np.concatenate([np.asarray(blk).ravel() for blk in s.x]) if blocked else np.asarray(s.x))
+            out.append(("ok", Ls, xs))
+        except Exception as e:  # noqa: BLE001
+            out.append(("err", common.err_kind(e), type(e).__name__, Ls, xs))
+    return out
+
+
+def oracle_block(case):
+    """the policies must not depend on how the variable is partitioned into blocks: same L at every step"""
+    blk, flat = _block_runs(case)
+    if blk[0] != flat[0]:
+        return {"why": "a step-size policy behaves differently on a BlockArray variable than on the concatenated array",
+                "blockarray": str(blk[:3]), "flat": str(flat[:3])}
+    if blk[0] == "err":
+        return None
+    for i, (a, b_) in enumerate(zip(blk[1], flat[1])):
+        if not _rel(a, b_, 8, 1e-10):
+            return {"why": "L differs between a BlockArray variable and the concatenated array", "step": i, "L_block": a, "L_flat": b_,
+                    "policy": case["policy"]}
+        if not common.allclose(blk[2][i], flat[2][i], None, 1e-8):
+            return {"why": "iterates differ between a BlockArray variable and the concatenated array", "step": i}
+    return None
+
+
+def check_blocks(ctx, n):
+    rng = ctx.rng
+    for _ in range(n):
+        n1, r, c = int(rng.integers(1, 3)), int(rng.integers(1, 3)), int(rng.integers(1, 3))
+        N = n1 + r * c
+        pol = G.gen_policy(rng, ["bb", "abb", "ls", "rls"][int(rng.integers(0, 4))])
+        case = {"what": "block", "shapes": [n1, r, c], "q": (rng.integers(-2, 9, size=N) / 2.0).tolist(),
+                "b": common.dyadic(rng, (N,), bits=3, scale=3.0).tolist(), "x0": common.dyadic(rng, (N,), bits=3, scale=2.0).tolist(),
+                "L0": float([0.5, 1.0, 2.0, 4.0][int(rng.integers(0, 4))]), "policy": pol, "accel": bool(rng.integers(0, 2)),
+                "steps": int(rng.integers(3, 7))}
+        ctx.case({"what": "block", "policy": pol["kind"], "accel": case["accel"]}, json.dumps(case, sort_keys=True))
+        ctx.count(f"block:{pol['kind']}")
+        bad = oracle_block(case)
+        if bad is not None:
+            ctx.disagree("stepsize.block", case, bad, None, oracle=oracle_block)
+
+
 def _corpus():
     d = common.CORPUS_DIR / PROP
     out = []
@@ -725,6 +823,7 @@ def correspond(ctx, model):
         check_case(ctx, model, case, origin="crafted")
     check_stub_histories(ctx, model, ctx.n(60, 600))
     check_stub_search(ctx, model)
+    check_blocks(ctx, ctx.n(12, 150))
     n = ctx.n(220, 1500)
     for _ in range(n):
         pol = G.gen_policy(ctx.rng)
@@ -811,6 +910,12 @@ def search(ctx, model, why):
 def replay(ctx, model, case):
     common.setup_scico()
     c = case.get("case", case)
+    if c.get("what") == "block":
+        r = oracle_block(c)
+        print("replay:", "property FAILS on implementation:" if r else "no failure at this input", r)
+        if r:
+            ctx.violation({"kind": "failing-input", "case": c, "failing": r}, True, "replay")
+        return
     if c.get("what") == "stub-search":
         r = _oracle_stub_search(c)
         print("replay:", "property FAILS on implementation:" if r else "no failure at this input", r)
